@@ -11,6 +11,7 @@ import (
 	"strings"
 	"testing"
 
+	abci "github.com/cometbft/cometbft/abci/types"
 	"pgregory.net/rapid"
 
 	"verif/ev"
@@ -125,3 +126,5 @@ func TestReplay(t *testing.T) {
 		t.Fatalf("%s", msg)
 	}
 }
+
+func abciEndBlock() abci.RequestEndBlock { return abci.RequestEndBlock{} }
